@@ -107,6 +107,22 @@ CHECKS = {
             "records. Held on the executions produced.",
             "sidecar location is read from the live configuration.",
             "runtime alignment monitor between Getter and Finder executions + independent data store"),
+    "C17": ("fault_enumeration", "3 C17",
+            "the file-system effects of each write scenario are recorded and the operation is re-executed dying before every effect and after "
+            "every (quick: every 2nd) byte prefix of every write (python-level interposer), and killed by the kernel on entry to every mutating "
+            "syscall (strace inject), the strace pass also checking that the interposer sees every kind of mutating syscall; after each crash the "
+            "real code reads back old-or-new data, unchanged neighbours, working searches and a succeeding next write; every truncation / "
+            "emptied / directory / unreadable corruption of a sidecar must blank only that Sid. Enumerates the crash points of the effects the "
+            "write actually performs.",
+            "crash = process death (data handed to the kernel survives); no power-loss reordering; reference old/new states from uncut runs.",
+            "crash-point and fault enumeration (python interposer + strace kill injection) with a recovery oracle"),
+    "C18": ("exploration", "3 C18",
+            "get_last / get_next / get_new compared with an oracle over the R7 existing set and the configured version pattern on generated "
+            "trees with empty, sparse, contiguous and maximal version sets, incl. '*', '>' and absent versions and overflow beyond the last "
+            "representable version; publish histories create(get_new()) checked for strictly increasing, never reused versions. Held on the "
+            "executions produced.",
+            "get_new on a Sid carrying a version while no version exists is not judged (statement silent).",
+            "runtime monitors against a version-workflow reference model + ordering checker over publish histories"),
 }
 
 NOT_YET = {}
